@@ -52,6 +52,25 @@ CHECKS.update({
    ref="DESIGN.md section 4, C01"),
 })
 
+CHECKS.update({
+ "C15": dict(level="proof",
+   text="The plumbing of every entry point is under contract: Parse/ParseString/ParseBytes hand the caller's filename and text to the definition's Lex/LexString/LexBytes and the resulting lexer plus the caller's options to parse; parse upgrades exactly that lexer and forwards the options to ParseFromLexer; ParseFromLexer builds the context from the parser's lookahead and case-insensitive table, and on every return path (including a Parseable root) leaves the caller's lexer at the position the parse reached; Parser.Lex consumes the lexer of the same definition; the mapping definition wraps the inner lexer with the same mapper; printTrace writes nothing but ctx.depth (so tracing cannot change results).",
+   note=TRUST + "User-supplied Definitions are assumed to make Lex/LexString/LexBytes agree (StatefulDefinition.Lex == LexString of the reader's content is by inspection); the elision list passed to Upgrade is the result of getElidedTypes (structural). Equality of ASTs across entry points follows because each reduces to the same ParseFromLexer call (paper lemma).",
+   ref="DESIGN.md section 4, C15"),
+ "C17": dict(level="proof",
+   text="sizeOfKind is proved equal to the bit-size table of the property for all eleven numeric kinds (and its panic unreachable from conform); conform is proved to call ParseInt/ParseUint/ParseFloat exactly for the signed/unsigned/float kinds with base 0 and bitSize == bitsOf(kind), to store exactly the value strconv returned and to return (nil, err) on a conversion error; setField is proved to join the captured values (not anything else) before converting a scalar, to locate conversion errors at tokens[0].Pos and to have no index panic; a bounded differential check against strconv over real struct fields is reported in the same evidence file (bounded, not proof).",
+   note=TRUST + "reflect and strconv are opaque stubs (function symbols); type assertions on reflection values in setField are assumed. Known design deviation (not claimed): the first captured token may be a preceding elided token.",
+   ref="DESIGN.md section 4, C17"),
+ "C18": dict(level="proof",
+   text="unquote is proved, by a loop invariant over a recursive spec function transcribed from strconv.Unquote, to return the raw body for back-quoted text and otherwise the concatenation of the characters strconv.UnquoteChar decodes (single bytes stay single bytes), to fail exactly when UnquoteChar fails or the text is shorter than two bytes, and to terminate; Unquote's and Upper's mappers change only Value (type and position untouched) and report errors located at the token; the mapping lexer calls the mapper exactly once per inner token in order; Build's combined mapper applies the all-token mappers then the token type's mappers, each once, on every token.",
+   note=TRUST + "strconv.UnquoteChar and strings.ToUpper are function stubs; that strconv.Quote output is accepted by this decoding is strconv's own inverse property (assumed). User mappers are assumed to be functions of their token.",
+   ref="DESIGN.md section 4, C18"),
+ "C19": dict(level="proof",
+   text="Panic-freedom of the struct-tag front end for well-formedness: every parse function of grammar.go is proved to return, on success, a node whose child slots are all non-nil and well-formed (wfc), so that no nil operand reaches visit/validate/buildEBNF/Parse (this is where 'modifier, capture or negation applied to nothing' is rejected); index and slice expressions of GetField, textScannerTransform and the tag lexer are in bounds; the scanner error callback keeps 'literal not terminated'.",
+   note=TRUST + "structLexer.Peek/Next, parseType and indirectType carry assumed contracts; wfc introduction rules and the list-segment rules for sequences are axioms; termination of the recursive-descent tag parser and completeness ('every documented grammar builds') are not decided.",
+   ref="DESIGN.md section 4, C19"),
+})
+
 NOT_APPLICABLE = {
  "C05": "relates two programs (generator output vs runtime lexer) for every rule set: translation validation / differential testing, not expressible as contracts on the generator's functions (DESIGN.md section 4, C05)",
 }
